@@ -22,7 +22,7 @@ func init() {
 		Technique: "wire-integer hygiene and guard/dominance rules on go/ssa (relational reading of branch conditions), error-discipline path queries, table agreement with RFC 7541 Appendix A/B",
 		Meta: core.Meta{
 			Level:       "other",
-			Explanation: "Decides structural necessary conditions of RFC 7541 decoding in bfe_http2/hpack: (1) readVarInt: every cycle through the accumulator shift passes a bound test that keeps the shift amount <= 56 and whose failing branch returns a fatal (non-errNeedMore) error; 7-bit payload mask, continuation bit 0x80, step 7; exhausted input yields errNeedMore; the prefix ends the integer only when strictly below 2^N-1. (2) Decoder.at answers ok only under 1 <= i <= len(static)+len(dynamic), the two index expressions are i-1 and len(ents)-(i-61) as affine forms and are guarded, and both callers use the entry only under ok and return a DecodingError otherwise. (3) the dynamic table size update reaches setMaxSize only under size <= allowedMaxSize; census of setMaxSize callers and of the writers of maxSize/allowedMaxSize; an integer read from the wire (readVarInt result, also when passed on as a parameter inside the package) is converted to a narrower integer type only under a guard that bounds the full-width value by something fitting that type, so limit/index/length tests are never made on truncated values. (4) the representation dispatch (bit patterns, prefix lengths, index type) agrees with RFC 7541 section 6. (5) every readVarInt/readString/huffmanDecode error is tested before any decoder state is changed, d.buf is advanced only after the last read and on every success path, no read follows a state change (incremental re-parse is idempotent). (6) readString slices only under strLen <= len(p), enforces maxStrLen, reports errNeedMore on truncation; Decoder.Write saves the unparsed rest on errNeedMore and Close reports truncated blocks. (7) huffmanDecode: every child-node dereference is guarded by a nil test (an encoded EOS is an error, not a panic), the in-loop output is bounded by maxLen, after the byte loop some branch whose one edge leads to error returns only must test the residual bit count (> 7 bits) and some such branch the residual bits (padding not all ones), and both tests are total: once an input byte has been read no return that may report success is reachable without passing them (a return the guards place under no-bits-left needs no value test), so an early success exit or a test folded into a loop that may not run is reported. (8) the static table and the Huffman code/length tables equal RFC 7541 Appendix A/B and the code is prefix-free and complete with EOS. (9) dynamic-table entry size is len(name)+len(value)+32 and add/setMaxSize evict; the insertion is unconditional: a success return of parseFieldLiteral is reachable without dynamicTable.add only over the false edge of an it.indexed() test (no size or other side condition, RFC 7541 section 4.4: an oversize entry empties the table), dynamicTable.add appends its parameter, accounts the size and evicts on every path from its entry, and every return of evict is placed by the guards under size <= maxSize. Not covered: equality with a reference decoder on all inputs (only the clauses above), the correctness of the Huffman tree construction, which of the two bit counters of huffmanDecode the length test reads (a test of the buffered-bit counter instead of the symbol-prefix counter is not told apart), that the value inserted by parseFieldLiteral is the field emitted, eviction arithmetic over histories, general panic-freedom (only constant-index/slice bounds in the wire readers and the nil dereferences in huffmanDecode are decided), the size-update-only-at-block-start rule of RFC 7541 section 4.2; value changes of wire integers other than truncating conversions (masking, same-width sign reinterpretation such as uint64->int on 64-bit targets).",
+			Explanation: "Decides structural necessary conditions of RFC 7541 decoding in bfe_http2/hpack: (1) readVarInt: every cycle through the accumulator shift passes a bound test that keeps the shift amount <= 56 and whose failing branch returns a fatal (non-errNeedMore) error; 7-bit payload mask, continuation bit 0x80, step 7; exhausted input yields errNeedMore; the prefix ends the integer only when strictly below 2^N-1. (2) Decoder.at answers ok only under 1 <= i <= len(static)+len(dynamic), the two index expressions are i-1 and len(ents)-(i-61) as affine forms and are guarded, and both callers use the entry only under ok and return a DecodingError otherwise. (3) the dynamic table size update reaches setMaxSize only under size <= allowedMaxSize; census of setMaxSize callers and of the writers of maxSize/allowedMaxSize; an integer read from the wire (readVarInt result, also when passed on as a parameter inside the package) is converted to a narrower integer type only under a guard that bounds the full-width value by something fitting that type, so limit/index/length tests are never made on truncated values. (4) the representation dispatch (bit patterns, prefix lengths, index type) agrees with RFC 7541 section 6. (5) every readVarInt/readString/huffmanDecode error is tested before any decoder state is changed, d.buf is advanced only after the last read and on every success path, no read follows a state change (incremental re-parse is idempotent). (6) readString slices only under strLen <= len(p), enforces maxStrLen, reports errNeedMore on truncation; Decoder.Write saves the unparsed rest on errNeedMore and Close reports truncated blocks. (7) huffmanDecode: every child-node dereference is guarded by a nil test (an encoded EOS is an error, not a panic), the in-loop output is bounded by maxLen, after the byte loop some branch whose one edge leads to error returns only must test the residual bit count (> 7 bits) and some such branch the residual bits (padding not all ones), and both tests are total: once an input byte has been read no return that may report success is reachable without passing them (a return the guards place under no-bits-left needs no value test), so an early success exit or a test folded into a loop that may not run is reported. (8) the static table and the Huffman code/length tables equal RFC 7541 Appendix A/B and the code is prefix-free and complete with EOS. (9) dynamic-table entry size is len(name)+len(value)+32 and add/setMaxSize evict; the insertion is unconditional: a success return of parseFieldLiteral is reachable without dynamicTable.add only over the false edge of an it.indexed() test (no size or other side condition, RFC 7541 section 4.4: an oversize entry empties the table), dynamicTable.add appends its parameter, accounts the size and evicts on every path from its entry, and every return of evict is placed by the guards under size <= maxSize. Not covered: equality with a reference decoder on all inputs (only the clauses above), the correctness of the Huffman tree construction, which of the two bit counters of huffmanDecode the length test reads (a test of the buffered-bit counter instead of the symbol-prefix counter is not told apart), that the value inserted by parseFieldLiteral is the field emitted, eviction arithmetic over histories, general panic-freedom (only constant-index/slice bounds in the wire readers and the nil dereferences in huffmanDecode are decided), the size-update-only-at-block-start rule of RFC 7541 section 4.2; value changes of wire integers other than truncating conversions (masking, same-width sign reinterpretation such as uint64->int on 64-bit targets). Robustness: every anchor function is read together with its private helpers (unexported functions of the package that are not used as values, are not anchors themselves and are called only from inside the anchor's region); a parameter of a helper with one call site is the argument passed there, the guards at that site hold inside the helper, path rules follow calls into helpers and come back through their returns (`return helper()` and `if err := helper(); err != nil { return err }` are read with the error of the helper's own return), comparisons are read with polarity and operand order folded in, a branch on a named boolean built with && or || is read as the facts it stands for, reviewed-caller censuses attribute a private helper to its anchor. Not decided after such a restructuring (reported as a violation, by policy): logic moved into a helper that is shared by two anchors or called from several sites and whose parameters carry the checked values (no call-site context), into closures, or handed over through struct fields instead of parameters/results; a never-firing early return placed inside dynamicTable.add/evict or before the padding tests of huffmanDecode is indistinguishable from a real one.",
 			RuleText:    "obligations = each accumulator shift, each success/truncation return of readVarInt, each ok-return and table index expression of Decoder.at, each Decoder.at call site, each setMaxSize call and table-size field writer, each truncating conversion of a wire integer, each row of the representation dispatch, each read call of the parse functions (error tested before effects), each consumption store and success return, each wire-length slice in readString, each need-more return of Write, each child lookup, the two tail clauses and each success return (passes both tail tests) of huffmanDecode, the three RFC tables, the indexed-implies-add path query of parseFieldLiteral, the three insertion steps of dynamicTable.add, each return of evict",
 			Assumptions: []string{"package-level error variables (errNeedMore, ErrInvalidHuffman, ErrStringLength, errVarintOverflow) are initialised non-nil and never reassigned", "bytes.Buffer and append behave as documented"},
 		},
@@ -56,6 +56,16 @@ func init() {
 			{Name: "table-add-skips-oversize-entry", File: "bfe_http2/hpack/hpack.go", Old: "func (dt *dynamicTable) add(f HeaderField) {\n", New: "func (dt *dynamicTable) add(f HeaderField) {\n	if f.Size() > dt.maxSize {\n		return\n	}\n", Expect: "dyn-table|dynamicTable.add:unconditional"},
 			{Name: "evict-keeps-last-entry", File: "bfe_http2/hpack/hpack.go", Old: "	for dt.size > dt.maxSize {", New: "	for dt.size > dt.maxSize && len(dt.ents) > 1 {", Expect: "dyn-table|dynamicTable.evict:return-fits"},
 			{Name: "silent-literal-add-early-exit-form", File: "bfe_http2/hpack/hpack.go", Old: "	if it.indexed() {\n		d.dynTab.add(hf)\n	}", New: "	if !it.indexed() {\n		hf.Sensitive = it.sensitive()\n		return d.callEmit(hf)\n	}\n	d.dynTab.add(hf)", Silent: true},
+			// robustness classes (negative controls): behaviour-preserving restructurings at other sites than the recorded controls
+			{Name: "silent-helper-size-update-tail-call", File: "bfe_http2/hpack/hpack.go", Old: "	if size > uint64(d.dynTab.allowedMaxSize) {\n		return DecodingError{errors.New(\"dynamic table size update too large\")}\n	}\n	d.dynTab.setMaxSize(uint32(size))\n	d.buf = buf\n	return nil\n}", New: "	return d.applySizeUpdate(size, buf)\n}\n\nfunc (d *Decoder) applySizeUpdate(newSize uint64, rest []byte) error {\n	if newSize > uint64(d.dynTab.allowedMaxSize) {\n		return DecodingError{errors.New(\"dynamic table size update too large\")}\n	}\n	d.dynTab.setMaxSize(uint32(newSize))\n	d.buf = rest\n	return nil\n}", Silent: true},
+			{Name: "silent-helper-huffman-padding-checked-call", File: "bfe_http2/hpack/huffman.go", Old: "	if sbits > 7 {\n		// Either there was an incomplete symbol, or overlong padding.\n		// Both are decoding errors per RFC 7541 section 5.2.\n		return ErrInvalidHuffman\n	}\n	if mask := uint(1<<nbits - 1); cur&mask != mask {\n		// Trailing bits must be a prefix of EOS per RFC 7541 section 5.2.\n		return ErrInvalidHuffman\n	}\n	return nil\n}", New: "	if err := checkPadding(cur, nbits, sbits); err != nil {\n		return err\n	}\n	return nil\n}\n\nfunc checkPadding(bitBuf uint, left, prefix uint8) error {\n	if prefix > 7 {\n		return ErrInvalidHuffman\n	}\n	if mask := uint(1<<left - 1); bitBuf&mask != mask {\n		return ErrInvalidHuffman\n	}\n	return nil\n}", Silent: true},
+			{Name: "silent-huffman-index-loop", File: "bfe_http2/hpack/huffman.go", Old: "	for _, b := range v {\n		cur = cur<<8 | uint(b)", New: "	for k := 0; k < len(v); k++ {\n		cur = cur<<8 | uint(v[k])", Silent: true},
+			{Name: "silent-close-switch-form", File: "bfe_http2/hpack/hpack.go", Old: "	if d.saveBuf.Len() > 0 {\n		d.saveBuf.Reset()\n		return DecodingError{errors.New(\"truncated headers\")}\n	}\n	return nil", New: "	switch pending := d.saveBuf.Len(); {\n	case pending == 0:\n		return nil\n	default:\n		d.saveBuf.Reset()\n		return DecodingError{errors.New(\"truncated headers\")}\n	}", Silent: true},
+			{Name: "silent-indexed-named-bool-defensive-check-reorder", File: "bfe_http2/hpack/hpack.go", Old: "	hf, ok := d.at(idx)\n	if !ok {\n		return DecodingError{InvalidIndexError(idx)}\n	}\n	d.buf = buf\n	return d.callEmit(HeaderField{Name: hf.Name, Value: hf.Value})", New: "	if len(buf) > len(d.buf) {\n		// cannot happen: readVarInt returns a suffix of its input\n		return DecodingError{errors.New(\"internal error\")}\n	}\n	entry, found := d.at(idx)\n	missing := found == false\n	if missing {\n		return DecodingError{InvalidIndexError(idx)}\n	}\n	out := HeaderField{Name: entry.Name, Value: entry.Value}\n	d.buf = buf\n	return d.callEmit(out)", Silent: true},
+			{Name: "silent-string-mirrored-comparisons", File: "bfe_http2/hpack/hpack.go", Old: "	if uint64(len(p)) < strLen {\n		return \"\", p, errNeedMore\n	}", New: "	if avail := uint64(len(p)); !(strLen <= avail) {\n		return \"\", p, errNeedMore\n	}", Silent: true},
+			{Name: "silent-at-switch-static-first", File: "bfe_http2/hpack/hpack.go", Old: "\tif i < 1 {\n\t\treturn\n\t}\n\tif i > uint64(d.maxTableIndex()) {\n\t\treturn\n\t}\n\tif i <= uint64(len(staticTable)) {\n\t\treturn staticTable[i-1], true\n\t}\n", New: "\tswitch {\n\tcase i < 1:\n\t\treturn\n\tcase i <= uint64(len(staticTable)):\n\t\treturn staticTable[i-1], true\n\tcase i > uint64(d.maxTableIndex()):\n\t\treturn\n\t}\n", Silent: true},
+			{Name: "silent-evict-endless-loop-with-break", File: "bfe_http2/hpack/hpack.go", Old: "\tfor dt.size > dt.maxSize {\n\t\tdt.size -= dt.ents[0].Size()\n\t\tdt.ents = dt.ents[1:]\n\t}\n", New: "\tfor {\n\t\tif dt.size <= dt.maxSize {\n\t\t\tbreak\n\t\t}\n\t\tdt.size -= dt.ents[0].Size()\n\t\tdt.ents = dt.ents[1:]\n\t}\n", Silent: true},
+			{Name: "silent-size-update-reordered-effects", File: "bfe_http2/hpack/hpack.go", Old: "\td.dynTab.setMaxSize(uint32(size))\n\td.buf = buf\n\treturn nil", New: "\td.buf = buf\n\td.dynTab.setMaxSize(uint32(size))\n\treturn nil", Silent: true},
 			{Name: "silent-at-rewritten", File: "bfe_http2/hpack/hpack.go", Old: "	if i < 1 {\n		return\n	}\n	if i > uint64(d.maxTableIndex()) {\n		return\n	}", New: "	if i == 0 || uint64(d.maxTableIndex()) < i {\n		return\n	}", Silent: true},
 		},
 	})
@@ -68,6 +78,15 @@ func runC31(c *core.Ctx) {
 		c.Missing(hxHpack)
 		return
 	}
+	env := hxOpen(c.P, c31Anchors()...)
+	defer env.close()
+	// build every anchor's region first: the parameter/argument and call-site
+	// tables of private helpers are then complete for all rules
+	for _, a := range c31AnchorNames {
+		if fn := c.P.Func(hxHpack, a); fn != nil {
+			hxRegionOf(c.P, fn)
+		}
+	}
 	c31VarInt(c)
 	c31Index(c)
 	c31SizeUpdate(c)
@@ -79,6 +98,23 @@ func runC31(c *core.Ctx) {
 	c31Huffman(c)
 	c31Tables(c)
 	c31DynTab(c)
+}
+
+// c31AnchorNames are the functions of bfe_http2/hpack that the rules analyse in
+// their own right (named by the property's anchors or exported); a call of one
+// of them is an opaque event for the others, everything else that is private
+// to one of them belongs to its region.
+var c31AnchorNames = []string{"readVarInt", "Decoder.at", "Decoder.maxTableIndex", "Decoder.parseHeaderFieldRepr", "Decoder.parseFieldIndexed",
+	"Decoder.parseFieldLiteral", "Decoder.parseDynamicTableSizeUpdate", "Decoder.readString", "Decoder.callEmit", "Decoder.Write", "Decoder.Close",
+	"huffmanDecode", "HuffmanDecode", "HuffmanDecodeToString", "dynamicTable.add", "dynamicTable.setMaxSize", "dynamicTable.evict",
+	"HeaderField.Size", "indexType.indexed", "indexType.sensitive"}
+
+func c31Anchors() []string {
+	var out []string
+	for _, a := range c31AnchorNames {
+		out = append(out, hxHpack+"."+a)
+	}
+	return out
 }
 
 func hxFn(c *core.Ctx, pkg, name string) *ssa.Function {
@@ -134,8 +170,9 @@ func c31VarInt(c *core.Ctx) {
 	if fn == nil {
 		return
 	}
+	g := hxRegionOf(c.P, fn)
 	var shifts []*ssa.BinOp
-	for _, in := range hxInstrs(fn) {
+	for _, in := range g.Instrs() {
 		if b, ok := in.(*ssa.BinOp); ok && b.Op == token.SHL {
 			if _, isPhi := core.StripConv(b.Y).(*ssa.Phi); isPhi {
 				shifts = append(shifts, b)
@@ -145,6 +182,7 @@ func c31VarInt(c *core.Ctx) {
 	for k, s := range shifts {
 		key := fmt.Sprintf("readVarInt:shift#%d", k)
 		m := core.StripConv(s.Y).(*ssa.Phi)
+		sf := s.Parent() // the frame of the continuation loop (readVarInt or a private helper of it)
 		// N = M + step on the back edge
 		var next *ssa.BinOp
 		var step int64
@@ -174,7 +212,7 @@ func c31VarInt(c *core.Ctx) {
 		isN := func(v ssa.Value) bool { return core.StripConv(v) == ssa.Value(next) }
 		var verdict string
 		found := false
-		for _, in := range hxInstrs(fn) {
+		for _, in := range hxInstrs(sf) {
 			ifi, ok := in.(*ssa.If)
 			if !ok {
 				continue
@@ -206,7 +244,7 @@ func c31VarInt(c *core.Ctx) {
 			case (ub/step)*step+7 > 63:
 				verdict = fmt.Sprintf("the loop continues with a shift amount up to %d: 7 payload bits shifted by %d do not fit 64 bits, over-long integers wrap instead of being rejected", (ub/step)*step, (ub/step)*step)
 			}
-			if bad := core.ReachAvoiding(fn, s, func(x ssa.Instruction) bool { return x == ssa.Instruction(ifi) }, func(x ssa.Instruction) bool { return x == ssa.Instruction(s) }); bad != nil {
+			if bad := core.ReachAvoiding(sf, s, func(x ssa.Instruction) bool { return x == ssa.Instruction(ifi) }, func(x ssa.Instruction) bool { return x == ssa.Instruction(s) }); bad != nil {
 				verdict = "a cycle through the accumulator shift avoids the bound test"
 			}
 			for bb := range hxReach(errS) {
@@ -228,14 +266,11 @@ func c31VarInt(c *core.Ctx) {
 
 		// success returns after the shift: continuation bit clear, value includes this byte
 		var byteV ssa.Value
-		if a, ok := core.StripConv(s.X).(*ssa.BinOp); ok {
-			byteV = a.X
-			if _, isK := hxConstInt(a.X); isK {
-				byteV = a.Y
-			}
+		if ax, _, ok := hxAnd(s.X); ok {
+			byteV = ax
 		}
 		n := 0
-		for _, r := range core.Returns(fn) {
+		for _, r := range core.Returns(sf) {
 			if !hxErrOf(hxErrResult(r)).Nil {
 				continue
 			}
@@ -244,10 +279,9 @@ func c31VarInt(c *core.Ctx) {
 			}
 			ok := false
 			for _, rel := range hxRelsAt(r.Block()) {
-				if a, isAnd := hxResolve(rel.L).(*ssa.BinOp); isAnd && a.Op == token.AND && rel.Op == token.EQL {
-					k1, _ := hxConstInt(a.Y)
+				if ax, k1, isAnd := hxAnd(rel.L); isAnd && rel.Op == token.EQL {
 					k0, isZero := hxConstInt(rel.R)
-					if k1 == 128 && isZero && k0 == 0 && byteV != nil && hxSame(a.X, byteV) {
+					if k1 == 128 && isZero && k0 == 0 && byteV != nil && hxSame(ax, byteV) {
 						ok = true
 					}
 				}
@@ -275,13 +309,13 @@ func c31VarInt(c *core.Ctx) {
 		}
 	}
 	n := 0
-	for _, r := range core.Returns(fn) {
+	for _, r := range g.Returns() {
 		if !hxErrOf(hxErrResult(r)).Nil {
 			continue
 		}
 		after := false
 		for _, s := range shifts {
-			if core.Dominates(s, r) {
+			if g.dominates(s, r) {
 				after = true
 			}
 		}
@@ -308,7 +342,7 @@ func c31VarInt(c *core.Ctx) {
 				continue
 			}
 			base, _ := hxConstInt(sh.X)
-			if base != 1 || np == nil || core.StripConv(sh.Y) != ssa.Value(np) {
+			if base != 1 || np == nil || hxResolve(sh.Y) != ssa.Value(np) {
 				continue
 			}
 			// l derives from the first byte
@@ -334,7 +368,7 @@ func c31VarInt(c *core.Ctx) {
 	c.Min("varint-format", 4)
 	// truncation -> errNeedMore
 	n = 0
-	for _, r := range core.Returns(fn) {
+	for _, r := range g.Returns() {
 		rels := hxRelsAt(r.Block())
 		ub, has := hxUpper(rels, func(v ssa.Value) bool { return hxLenArg(v) != nil })
 		if !has || ub > 0 {
@@ -345,7 +379,9 @@ func c31VarInt(c *core.Ctx) {
 		n++
 	}
 	c.Min("varint-truncated", 2)
-	hxIndexBounds(c, "wire-index-bounds", fn)
+	for _, f := range g.Fns {
+		hxIndexBounds(c, "wire-index-bounds", f)
+	}
 }
 
 // ---------------------------------------------------------------- table index
@@ -415,19 +451,23 @@ func c31Index(c *core.Ctx) {
 		c.Missing("Decoder.at: index parameter")
 		return
 	}
-	isI := func(v ssa.Value) bool { return core.StripConv(v) == ssa.Value(ip) }
+	isI := func(v ssa.Value) bool { return hxResolve(v) == ssa.Value(ip) }
+	ga := hxRegionOf(c.P, at)
 	n := 0
-	for _, r := range core.Returns(at) {
+	for _, r := range ga.Returns() {
 		if len(r.Results) != 2 {
 			continue
 		}
-		k, isK := r.Results[1].(*ssa.Const)
+		k, isK := hxResolve(core.RetVals(r)[1]).(*ssa.Const)
 		if isK && k.Value != nil && !constant.BoolVal(k.Value) {
 			continue
 		}
 		rels := hxRelsAt(r.Block())
 		lo, hasLo := hxLower(rels, isI)
 		_, le := hxLE(rels, isI, isMaxExpr)
+		if hi, hasHi := hxUpper(rels, isI); hasHi && hi <= staticLen {
+			le = true // i <= len(staticTable) <= maxTableIndex()
+		}
 		c.Check("table-index", fmt.Sprintf("Decoder.at:return-ok#%d", n), r.Pos(), hasLo && lo >= 1 && le,
 			"Decoder.at answers ok although the guards do not establish 1 <= i <= maxTableIndex(): "+hxRelStrs(rels))
 		n++
@@ -437,7 +477,7 @@ func c31Index(c *core.Ctx) {
 	}
 	// index expressions
 	ns, nd := 0, 0
-	for _, in := range hxInstrs(at) {
+	for _, in := range ga.Instrs() {
 		ia, ok := in.(*ssa.IndexAddr)
 		if !ok {
 			continue
@@ -470,7 +510,7 @@ func c31Index(c *core.Ctx) {
 	// census: the decoder reads the static table only in Decoder.at
 	if w := c.P.Func(hxHpack, "Decoder.Write"); w != nil {
 		for _, fn := range core.TransitiveCallees(w, 5) {
-			if fn == at || core.FuncPkgRel(fn) != hxHpack {
+			if fn == at || ga.In[fn] || core.FuncPkgRel(fn) != hxHpack {
 				continue
 			}
 			for _, in := range hxInstrs(fn) {
@@ -487,7 +527,8 @@ func c31Index(c *core.Ctx) {
 			continue
 		}
 		k := 0
-		for _, in := range hxInstrs(fn) {
+		gf := hxRegionOf(c.P, fn)
+		for _, in := range gf.Instrs() {
 			call := hxIsCallTo(in, hxHpack+".Decoder.at")
 			if call == nil {
 				continue
@@ -503,7 +544,7 @@ func c31Index(c *core.Ctx) {
 				why = append(why, "the ok result of Decoder.at is discarded")
 			}
 			guardedByOK := func(b *ssa.BasicBlock) bool {
-				return okv != nil && core.HasGuard(b, func(g core.Guard) bool { return g.Pol && g.Cond == okv })
+				return okv != nil && hxHasGuard(b, func(g core.Guard) bool { return g.Pol && g.Cond == okv })
 			}
 			if hfv != nil && hfv.Referrers() != nil {
 				var uses []ssa.Instruction
@@ -535,8 +576,8 @@ func c31Index(c *core.Ctx) {
 				}
 			}
 			hasErr := false
-			for _, r := range core.Returns(fn) {
-				if okv != nil && core.HasGuard(r.Block(), func(g core.Guard) bool { return !g.Pol && g.Cond == okv }) {
+			for _, r := range gf.Returns() {
+				if okv != nil && hxHasGuard(r.Block(), func(g core.Guard) bool { return !g.Pol && g.Cond == okv }) {
 					hasErr = true
 					if e := hxErrOf(hxErrResult(r)); !e.NonNil {
 						why = append(why, "the !ok branch returns "+core.Render(hxErrResult(r)))
@@ -560,7 +601,8 @@ func c31SizeUpdate(c *core.Ctx) {
 	maxF := hxField(c, hxHpack, "dynamicTable.maxSize")
 	if fn != nil && allowedF != nil {
 		k := 0
-		for _, in := range hxInstrs(fn) {
+		g := hxRegionOf(c.P, fn)
+		for _, in := range g.Instrs() {
 			call := hxIsCallTo(in, hxHpack+".dynamicTable.setMaxSize")
 			if call == nil {
 				continue
@@ -579,7 +621,7 @@ func c31SizeUpdate(c *core.Ctx) {
 		}
 		// the rejecting branch
 		found := false
-		for _, r := range core.Returns(fn) {
+		for _, r := range g.Returns() {
 			for _, rel := range hxRelsAt(r.Block()) {
 				l, rr, op := rel.L, rel.R, rel.Op
 				if op == token.LSS {
@@ -614,20 +656,31 @@ func c31SizeUpdate(c *core.Ctx) {
 	for _, f := range fns {
 		for _, in := range hxInstrs(f) {
 			if ci, ok := in.(ssa.CallInstruction); ok && core.CallIs(ci.Common(), hxHpack+".dynamicTable.setMaxSize") {
-				_, ok := allowedCallers[core.FuncKey(f)]
-				c.Check("size-census", core.FuncKey(f)+":calls-setMaxSize", in.Pos(), ok, "unreviewed caller of dynamicTable.setMaxSize: the table limit can be changed outside the reviewed paths")
+				// a private helper of a reviewed caller counts as that caller
+				owner := hxOwner(c.P, hxHpack, f, allowedCallers)
+				key := owner
+				if owner == "" {
+					key = core.FuncKey(f)
+				}
+				c.Check("size-census", key+":calls-setMaxSize", in.Pos(), owner != "", "unreviewed caller of dynamicTable.setMaxSize: the table limit can be changed outside the reviewed paths")
 			}
 		}
 	}
 	if maxF != nil {
 		for _, st := range core.FieldStores(fns, maxF) {
-			k := core.FuncKey(st.Fn)
+			k := hxOwner(c.P, hxHpack, st.Fn, map[string]string{hxHpack + ".dynamicTable.setMaxSize": ""})
+			if k == "" {
+				k = core.FuncKey(st.Fn)
+			}
 			c.Check("size-census", k+":writes-maxSize", st.Store.Pos(), k == hxHpack+".dynamicTable.setMaxSize", "dynamicTable.maxSize is written outside setMaxSize (no eviction follows)")
 		}
 	}
 	if allowedF != nil {
 		for _, st := range core.FieldStores(fns, allowedF) {
-			k := core.FuncKey(st.Fn)
+			k := hxOwner(c.P, hxHpack, st.Fn, map[string]string{hxHpack + ".NewDecoder": "", hxHpack + ".Decoder.SetAllowedMaxDynamicTableSize": ""})
+			if k == "" {
+				k = core.FuncKey(st.Fn)
+			}
 			ok := k == hxHpack+".NewDecoder" || k == hxHpack+".Decoder.SetAllowedMaxDynamicTableSize"
 			c.Check("size-census", k+":writes-allowedMaxSize", st.Store.Pos(), ok, "dynamicTable.allowedMaxSize is written by an unreviewed function; the peer must not be able to raise its own limit")
 		}
@@ -669,9 +722,9 @@ func c31Dispatch(c *core.Ctx) {
 	}
 	// prefix used by a callee: first argument of its readVarInt on d.buf
 	calleePrefix := func(callee *ssa.Function, arg ssa.Value) (int64, bool) {
-		for _, in := range hxInstrs(callee) {
+		for _, in := range hxRegionOf(c.P, callee).Instrs() {
 			if call := hxIsCallTo(in, hxHpack+".readVarInt"); call != nil {
-				a := core.StripConv(call.Call.Args[0])
+				a := hxResolve(call.Call.Args[0])
 				if k, ok := hxConstInt(a); ok {
 					return k, true
 				}
@@ -684,7 +737,7 @@ func c31Dispatch(c *core.Ctx) {
 		return 0, false
 	}
 	seen := map[string]bool{}
-	for _, in := range hxInstrs(fn) {
+	for _, in := range hxRegionOf(c.P, fn).Instrs() {
 		call, ok := in.(*ssa.Call)
 		if !ok {
 			continue
@@ -706,16 +759,12 @@ func c31Dispatch(c *core.Ctx) {
 		// the pattern established at the call
 		mask, val, havePat := int64(-1), int64(-1), false
 		for _, rel := range hxRelsAt(call.Block()) {
-			a, isAnd := hxResolve(rel.L).(*ssa.BinOp)
-			if !isAnd || a.Op != token.AND {
+			ax, m, isAnd := hxAnd(rel.L)
+			if !isAnd || !hxIsFirstByteOf(ax, bufF) {
 				continue
 			}
-			if !hxIsFirstByteOf(a.X, bufF) {
-				continue
-			}
-			m, ok1 := hxConstInt(a.Y)
 			v, ok2 := hxConstInt(rel.R)
-			if !ok1 || !ok2 {
+			if !ok2 {
 				continue
 			}
 			switch {
@@ -765,9 +814,11 @@ func c31Dispatch(c *core.Ctx) {
 		want := itVal(m[1])
 		ok := false
 		for _, r := range core.Returns(f) {
-			if b, isB := r.Results[0].(*ssa.BinOp); isB && b.Op == token.EQL {
-				if k, isK := hxConstInt(b.Y); isK && k == want && len(f.Params) == 1 && b.X == ssa.Value(f.Params[0]) {
-					ok = true
+			if b, isB := hxResolve(r.Results[0]).(*ssa.BinOp); isB && b.Op == token.EQL && len(f.Params) == 1 {
+				for _, pair := range [][2]ssa.Value{{b.X, b.Y}, {b.Y, b.X}} {
+					if k, isK := hxConstInt(pair[1]); isK && k == want && hxResolve(pair[0]) == ssa.Value(f.Params[0]) {
+						ok = true
+					}
 				}
 			}
 		}
@@ -775,9 +826,10 @@ func c31Dispatch(c *core.Ctx) {
 	}
 	if lit := hxFn(c, hxHpack, "Decoder.parseFieldLiteral"); lit != nil {
 		n := 0
-		for _, in := range hxInstrs(lit) {
+		gl := hxRegionOf(c.P, lit)
+		for _, in := range gl.Instrs() {
 			if call := hxIsCallTo(in, hxHpack+".dynamicTable.add"); call != nil {
-				ok := core.HasGuard(call.Block(), func(g core.Guard) bool {
+				ok := hxHasGuard(call.Block(), func(g core.Guard) bool {
 					cc, _ := hxCallOf(g.Cond)
 					return g.Pol && cc != nil && core.CallIs(&cc.Call, hxHpack+".indexType.indexed")
 				})
@@ -790,7 +842,7 @@ func c31Dispatch(c *core.Ctx) {
 		}
 		c31IndexedImpliesAdd(c, lit)
 		if sf := hxField(c, hxHpack, "HeaderField.Sensitive"); sf != nil {
-			for i, st := range core.FieldStores([]*ssa.Function{lit}, sf) {
+			for i, st := range core.FieldStores(gl.Fns, sf) {
 				cc, _ := hxCallOf(st.Store.Val)
 				c.Check("literal-indexing", fmt.Sprintf("parseFieldLiteral:sensitive#%d", i), st.Store.Pos(), cc != nil && core.CallIs(&cc.Call, hxHpack+".indexType.sensitive"), "HeaderField.Sensitive must be it.sensitive()")
 			}
@@ -820,22 +872,22 @@ func c31Reads(c *core.Ctx) {
 		return ok && core.CallIs(ci.Common(), hxHpack+".dynamicTable.add", hxHpack+".dynamicTable.setMaxSize", hxHpack+".Decoder.callEmit")
 	}
 	isRead := func(in ssa.Instruction) bool { return hxIsCallTo(in, readNames...) != nil }
+	isReadCall := func(call *ssa.Call) bool { return core.CallIs(&call.Call, readNames...) }
 	parseFns := []string{"Decoder.parseFieldIndexed", "Decoder.parseFieldLiteral", "Decoder.parseDynamicTableSizeUpdate"}
 	for _, name := range append(append([]string{}, parseFns...), "Decoder.readString", "HuffmanDecode", "HuffmanDecodeToString") {
 		fn := hxFn(c, hxHpack, name)
 		if fn == nil {
 			continue
 		}
+		g := hxRegionOf(c.P, fn)
+		// in the frame of the call an effect is also a call of a private helper that may perform one
+		effectHere := g.liftMay(isEffect)
 		cnt := map[string]int{}
-		for _, in := range hxInstrs(fn) {
-			call := hxIsCallTo(in, readNames...)
-			if call == nil {
-				continue
-			}
+		for _, call := range g.errCalls(isReadCall) {
 			ck := core.CalleeKey(&call.Call)
 			key := fmt.Sprintf("%s:%s#%d", core.FuncKey(fn), strings.TrimPrefix(ck, hxHpack+"."), cnt[ck])
 			cnt[ck]++
-			why := hxErrChecked(fn, call, isEffect)
+			why := hxErrChecked(fn, call, effectHere)
 			c.Check("read-err-checked", key, call.Pos(), why == "", "the error of "+ck+" must be tested, and returned, before any decoder state changes: "+why)
 		}
 	}
@@ -845,14 +897,15 @@ func c31Reads(c *core.Ctx) {
 		if fn == nil {
 			continue
 		}
+		g := hxRegionOf(c.P, fn)
 		fk := core.FuncKey(fn)
 		var stores []*ssa.Store
 		n := 0
-		for _, in := range hxInstrs(fn) {
+		for _, in := range g.Instrs() {
 			if !isEffect(in) {
 				continue
 			}
-			bad := core.ReachAvoiding(fn, in, nil, isRead)
+			bad := g.reachI(in, nil, isRead)
 			c.Check("consume", fmt.Sprintf("%s:no-read-after-effect#%d", fk, n), in.Pos(), bad == nil,
 				"after "+hxDescribe(in)+" another wire read can fail with errNeedMore; the representation would be re-parsed and the effect applied twice")
 			n++
@@ -861,7 +914,7 @@ func c31Reads(c *core.Ctx) {
 			}
 		}
 		for i, st := range stores {
-			src, idx := hxCallOf(st.Val)
+			src, idx := hxCallOf(hxResolveDeep(st.Val))
 			ok := src != nil && idx == 1 && core.CallIs(&src.Call, readNames[:2]...)
 			c.Check("consume", fmt.Sprintf("%s:advance#%d", fk, i), st.Pos(), ok, "d.buf must advance to the remainder returned by the last read; stores "+core.Render(st.Val))
 		}
@@ -869,7 +922,7 @@ func c31Reads(c *core.Ctx) {
 			c.Check("consume", fk+":advance#0", fn.Pos(), false, "the representation is never consumed (d.buf is not advanced): Decoder.Write would loop forever")
 		}
 		k := 0
-		for _, r := range core.Returns(fn) {
+		for _, r := range g.Returns() {
 			ev := hxErrResult(r)
 			cc, _ := hxCallOf(ev)
 			if !(hxErrOf(ev).Nil || (cc != nil && core.CallIs(&cc.Call, hxHpack+".Decoder.callEmit"))) {
@@ -877,7 +930,7 @@ func c31Reads(c *core.Ctx) {
 			}
 			dom := false
 			for _, st := range stores {
-				if core.Dominates(st, r) {
+				if g.dominates(st, r) {
 					dom = true
 				}
 			}
@@ -897,8 +950,9 @@ func c31String(c *core.Ctx) {
 		return
 	}
 	// strLen: #0 of the readVarInt call
+	g := hxRegionOf(c.P, fn)
 	var lenCall *ssa.Call
-	for _, in := range hxInstrs(fn) {
+	for _, in := range g.Instrs() {
 		if call := hxIsCallTo(in, hxHpack+".readVarInt"); call != nil && lenCall == nil {
 			lenCall = call
 		}
@@ -910,7 +964,7 @@ func c31String(c *core.Ctx) {
 	strLen := hxExtract(lenCall, 0)
 	isStrLen := func(v ssa.Value) bool { return strLen != nil && hxResolve(v) == strLen }
 	n := 0
-	for _, in := range hxInstrs(fn) {
+	for _, in := range g.Instrs() {
 		sl, ok := in.(*ssa.Slice)
 		if !ok {
 			continue
@@ -932,7 +986,7 @@ func c31String(c *core.Ctx) {
 	c.Min("string-length", 3)
 	// errors
 	foundMax, foundTrunc, foundEmpty := false, false, false
-	for _, r := range core.Returns(fn) {
+	for _, r := range g.Returns() {
 		rels := hxRelsAt(r.Block())
 		ev := hxErrResult(r)
 		for _, rel := range rels {
@@ -968,21 +1022,20 @@ func c31String(c *core.Ctx) {
 	}
 	// huffman call: flag and limit
 	k := 0
-	for _, in := range hxInstrs(fn) {
+	for _, in := range g.Instrs() {
 		call := hxIsCallTo(in, hxHpack+".huffmanDecode")
 		if call == nil {
 			continue
 		}
 		flag := false
 		for _, rel := range hxRelsAt(call.Block()) {
-			a, isAnd := hxResolve(rel.L).(*ssa.BinOp)
-			if !isAnd || a.Op != token.AND {
+			ax, m, isAnd := hxAnd(rel.L)
+			if !isAnd {
 				continue
 			}
-			m, _ := hxConstInt(a.Y)
 			z, isZ := hxConstInt(rel.R)
 			first := false
-			if u, ok := a.X.(*ssa.UnOp); ok {
+			if u, ok := hxResolve(ax).(*ssa.UnOp); ok {
 				if ia, ok := u.X.(*ssa.IndexAddr); ok {
 					if i0, ok := hxConstInt(ia.Index); ok && i0 == 0 {
 						first = true
@@ -999,7 +1052,9 @@ func c31String(c *core.Ctx) {
 		k++
 	}
 	c.Min("string-limit", 4)
-	hxIndexBounds(c, "wire-index-bounds", fn)
+	for _, f := range g.Fns {
+		hxIndexBounds(c, "wire-index-bounds", f)
+	}
 	c.Min("wire-index-bounds", 5)
 }
 
@@ -1013,8 +1068,9 @@ func c31Write(c *core.Ctx) {
 		return
 	}
 	if fn != nil {
+		g := hxRegionOf(c.P, fn)
 		var parse *ssa.Call
-		for _, in := range hxInstrs(fn) {
+		for _, in := range g.Instrs() {
 			if call := hxIsCallTo(in, hxHpack+".Decoder.parseHeaderFieldRepr"); call != nil {
 				parse = call
 			}
@@ -1031,19 +1087,19 @@ func c31Write(c *core.Ctx) {
 				return false
 			}
 			n := 0
-			for _, r := range core.Returns(fn) {
+			for _, r := range g.Returns() {
 				if !isNeedMore(r.Block()) {
 					continue
 				}
 				ev := hxErrResult(r)
 				ok := hxGlobalLoad(ev, "ErrStringLength")
 				if !ok && hxErrOf(ev).Nil {
-					for _, in := range hxInstrs(fn) {
+					for _, in := range g.Instrs() {
 						call := hxIsCallTo(in, "bytes.Buffer.Write")
 						if call == nil || len(call.Call.Args) != 2 {
 							continue
 						}
-						if hxIsField(call.Call.Args[0], saveF) && hxIsField(call.Call.Args[1], bufF) && core.Dominates(call, r) && isNeedMore(call.Block()) {
+						if hxIsField(call.Call.Args[0], saveF) && hxIsField(call.Call.Args[1], bufF) && g.dominates(call, r) && isNeedMore(call.Block()) {
 							ok = true
 						}
 					}
@@ -1057,7 +1113,7 @@ func c31Write(c *core.Ctx) {
 			}
 			// fatal errors leave the loop and are returned
 			leaves, returned := false, false
-			for _, in := range hxInstrs(fn) {
+			for _, in := range g.Instrs() {
 				ifi, ok := in.(*ssa.If)
 				if !ok {
 					continue
@@ -1070,9 +1126,9 @@ func c31Write(c *core.Ctx) {
 				if rel.Op == token.EQL {
 					errS = ifi.Block().Succs[1]
 				}
-				leaves = !hxReach(errS)[parse.Block()]
+				leaves = !g.blockReaches(errS, parse.Block())
 			}
-			for _, r := range core.Returns(fn) {
+			for _, r := range g.Returns() {
 				if hxSliceHas(hxErrResult(r), func(v ssa.Value) bool { return v == ssa.Value(parse) }) {
 					returned = true
 				}
@@ -1083,7 +1139,7 @@ func c31Write(c *core.Ctx) {
 	}
 	if cl := hxFn(c, hxHpack, "Decoder.Close"); cl != nil {
 		found := false
-		for _, r := range core.Returns(cl) {
+		for _, r := range hxRegionOf(c.P, cl).Returns() {
 			lo, has := hxLower(hxRelsAt(r.Block()), func(v ssa.Value) bool {
 				cc, _ := hxCallOf(v)
 				return cc != nil && core.CallIs(&cc.Call, "bytes.Buffer.Len") && hxIsField(cc.Call.Args[0], saveF)
@@ -1114,10 +1170,11 @@ func c31Huffman(c *core.Ctx) {
 			input = p
 		}
 	}
+	g := hxRegionOf(c.P, fn)
 	var byteLoad *ssa.UnOp
-	for _, in := range hxInstrs(fn) {
+	for _, in := range g.Instrs() {
 		if u, ok := in.(*ssa.UnOp); ok && u.Op == token.MUL {
-			if ia, ok := u.X.(*ssa.IndexAddr); ok && input != nil && ia.X == ssa.Value(input) {
+			if ia, ok := u.X.(*ssa.IndexAddr); ok && input != nil && hxResolve(ia.X) == ssa.Value(input) {
 				byteLoad = u
 			}
 		}
@@ -1127,7 +1184,16 @@ func c31Huffman(c *core.Ctx) {
 		return
 	}
 	loopB := byteLoad.Block()
-	inLoop := func(b *ssa.BasicBlock) bool { return hxReach(b)[loopB] && (loopB.Dominates(b) || b == loopB) }
+	// a block belongs to the byte loop when the byte load reaches it and it reaches the byte load again (calls of private helpers followed)
+	loopMemo := map[*ssa.BasicBlock]bool{}
+	inLoop := func(b *ssa.BasicBlock) bool {
+		v, ok := loopMemo[b]
+		if !ok {
+			v = b == loopB || (g.blockReaches(b, loopB) && g.blockReaches(loopB, b))
+			loopMemo[b] = v
+		}
+		return v
+	}
 	isBitBuf := func(v ssa.Value) bool {
 		return hxSliceHas(v, func(x ssa.Value) bool { return x == ssa.Value(byteLoad) })
 	}
@@ -1149,7 +1215,7 @@ func c31Huffman(c *core.Ctx) {
 	}
 	// (a) child lookups
 	nLoop, nTail := 0, 0
-	for _, in := range hxInstrs(fn) {
+	for _, in := range g.Instrs() {
 		u, ok := in.(*ssa.UnOp)
 		if !ok || u.Op != token.MUL {
 			continue
@@ -1169,7 +1235,7 @@ func c31Huffman(c *core.Ctx) {
 		}
 		nonNilAt := func(b *ssa.BasicBlock) bool {
 			for _, rel := range hxRelsAt(b) {
-				if rel.Op == token.NEQ && ((rel.L == ssa.Value(u) && hxIsNil(rel.R)) || (rel.R == ssa.Value(u) && hxIsNil(rel.L))) {
+				if rel.Op == token.NEQ && ((hxResolve(rel.L) == ssa.Value(u) && hxIsNil(rel.R)) || (hxResolve(rel.R) == ssa.Value(u) && hxIsNil(rel.L))) {
 					return true
 				}
 			}
@@ -1194,9 +1260,9 @@ func c31Huffman(c *core.Ctx) {
 		}
 		// the nil branch is an error
 		hasNilErr := false
-		for _, r := range core.Returns(fn) {
+		for _, r := range g.Returns() {
 			for _, rel := range hxRelsAt(r.Block()) {
-				if rel.Op == token.EQL && rel.L == ssa.Value(u) && hxIsNil(rel.R) {
+				if rel.Op == token.EQL && hxResolve(rel.L) == ssa.Value(u) && hxIsNil(rel.R) {
 					hasNilErr = true
 					if !hxErrOf(hxErrResult(r)).NonNil {
 						why = append(why, "the nil branch returns "+core.Render(hxErrResult(r)))
@@ -1213,10 +1279,10 @@ func c31Huffman(c *core.Ctx) {
 	}
 	c.Min("huffman-nil", 2)
 	// (b) tail clauses: existence and totality (x_hpack3.go)
-	c31HuffmanTail(c, fn, byteLoad, isCounter, isBitBuf)
+	c31HuffmanTail(c, g, byteLoad, isCounter, isBitBuf)
 	// (c) output bound inside the loop
 	n := 0
-	for _, in := range hxInstrs(fn) {
+	for _, in := range g.Instrs() {
 		call := hxIsCallTo(in, "bytes.Buffer.WriteByte")
 		if call == nil || !inLoop(call.Block()) {
 			continue
@@ -1227,18 +1293,22 @@ func c31Huffman(c *core.Ctx) {
 				ml = p
 			}
 		}
-		ok := ml != nil && core.AllEdgesGuarded(call.Block(), func(g core.Guard) bool {
+		ok := ml != nil && hxAllEdgesGuarded(call.Block(), func(g core.Guard) bool {
 			rel, ok := hxRelOf(g.Cond, g.Pol)
 			if !ok {
 				return false
 			}
-			if rel.Op == token.EQL && rel.L == ssa.Value(ml) {
+			if rel.Op == token.EQL && hxResolve(rel.L) == ssa.Value(ml) {
 				k, isK := hxConstInt(rel.R)
 				return isK && k == 0
 			}
-			if rel.Op == token.NEQ || rel.Op == token.LSS {
-				cc, _ := hxCallOf(rel.L)
-				return cc != nil && core.CallIs(&cc.Call, "bytes.Buffer.Len") && rel.R == ssa.Value(ml)
+			l, r, op := rel.L, rel.R, rel.Op
+			if hxResolve(l) == ssa.Value(ml) { // maxLen > buf.Len()
+				l, r, op = r, l, hxFlipOp(op)
+			}
+			if op == token.NEQ || op == token.LSS {
+				cc, _ := hxCallOf(l)
+				return cc != nil && core.CallIs(&cc.Call, "bytes.Buffer.Len") && hxResolve(r) == ssa.Value(ml)
 			}
 			return false
 		})
@@ -1401,8 +1471,8 @@ func c31Tables(c *core.Ctx) {
 
 func c31DynTab(c *core.Ctx) {
 	if fn := hxFn(c, hxHpack, "HeaderField.Size"); fn != nil {
-		for i, r := range core.Returns(fn) {
-			t, k := hxAffine(r.Results[0])
+		for i, r := range hxRegionOf(c.P, fn).Returns() {
+			t, k := hxAffine(core.RetVals(r)[0])
 			ok := k == 32 && len(t) == 2
 			for key, coef := range t {
 				if coef != 1 || !(strings.HasPrefix(key, "builtin:len(") && (strings.HasSuffix(key, ".Name)") || strings.HasSuffix(key, ".Value)"))) {
@@ -1419,7 +1489,9 @@ func c31DynTab(c *core.Ctx) {
 		return ok && core.CallIs(ci.Common(), hxHpack+".dynamicTable.evict")
 	}
 	if fn := hxFn(c, hxHpack, "dynamicTable.add"); fn != nil && sizeF != nil {
-		sts := core.FieldStores([]*ssa.Function{fn}, sizeF)
+		g := hxRegionOf(c.P, fn)
+		isExit := func(in ssa.Instruction) bool { return core.IsReturn(in) && in.Parent() == fn }
+		sts := core.FieldStores(g.Fns, sizeF)
 		ok := len(sts) > 0
 		for _, st := range sts {
 			b, isB := st.Store.Val.(*ssa.BinOp)
@@ -1427,12 +1499,12 @@ func c31DynTab(c *core.Ctx) {
 			if isB && b.Op == token.ADD {
 				for _, pair := range [][2]ssa.Value{{b.X, b.Y}, {b.Y, b.X}} {
 					cc, _ := hxCallOf(pair[1])
-					if hxIsField(pair[0], sizeF) && cc != nil && core.CallIs(&cc.Call, hxHpack+".HeaderField.Size") && len(fn.Params) == 2 && cc.Call.Args[0] == ssa.Value(fn.Params[1]) {
+					if hxIsField(pair[0], sizeF) && cc != nil && core.CallIs(&cc.Call, hxHpack+".HeaderField.Size") && len(fn.Params) == 2 && hxResolve(cc.Call.Args[0]) == ssa.Value(fn.Params[1]) {
 						good = true
 					}
 				}
 			}
-			if !good || core.MustPass(fn, st.Store, isEvict) != nil {
+			if !good || g.reachI(st.Store, isEvict, isExit) != nil {
 				ok = false
 			}
 		}
@@ -1440,10 +1512,12 @@ func c31DynTab(c *core.Ctx) {
 		c31AddUnconditional(c, fn)
 	}
 	if fn := hxFn(c, hxHpack, "dynamicTable.setMaxSize"); fn != nil && maxF != nil {
-		sts := core.FieldStores([]*ssa.Function{fn}, maxF)
+		g := hxRegionOf(c.P, fn)
+		isExit := func(in ssa.Instruction) bool { return core.IsReturn(in) && in.Parent() == fn }
+		sts := core.FieldStores(g.Fns, maxF)
 		ok := len(sts) > 0
 		for _, st := range sts {
-			if len(fn.Params) != 2 || st.Store.Val != ssa.Value(fn.Params[1]) || core.MustPass(fn, st.Store, isEvict) != nil {
+			if len(fn.Params) != 2 || hxResolve(st.Store.Val) != ssa.Value(fn.Params[1]) || g.reachI(st.Store, isEvict, isExit) != nil {
 				ok = false
 			}
 		}
@@ -1451,7 +1525,8 @@ func c31DynTab(c *core.Ctx) {
 	}
 	if fn := hxFn(c, hxHpack, "dynamicTable.evict"); fn != nil && sizeF != nil && maxF != nil {
 		ok := false
-		for _, st := range core.FieldStores([]*ssa.Function{fn}, sizeF) {
+		g := hxRegionOf(c.P, fn)
+		for _, st := range core.FieldStores(g.Fns, sizeF) {
 			b, isB := st.Store.Val.(*ssa.BinOp)
 			if !isB || b.Op != token.SUB || !hxIsField(b.X, sizeF) {
 				continue
@@ -1468,22 +1543,24 @@ func c31DynTab(c *core.Ctx) {
 		}
 		// the loop is left only when size <= maxSize
 		exitOK := false
-		for _, in := range hxInstrs(fn) {
+		for _, in := range g.Instrs() {
 			ifi, isIf := in.(*ssa.If)
 			if !isIf {
 				continue
 			}
-			rel, okR := hxRelOf(ifi.Cond, true)
-			if !okR {
-				continue
-			}
-			l, r, op := rel.L, rel.R, rel.Op
-			if op == token.LSS {
-				l, r, op = r, l, token.GTR
-			}
-			if op == token.GTR && hxIsField(l, sizeF) && hxIsField(r, maxF) {
-				// false successor must not come back without passing this test: trivially true; require the true successor to loop back
-				exitOK = hxReach(ifi.Block().Succs[0])[ifi.Block()] && !hxReach(ifi.Block().Succs[1])[ifi.Block()]
+			// the successor taken under size > maxSize must loop back, the other one must not (either spelling / polarity of the test)
+			for i, pol := range []bool{true, false} {
+				rel, okR := hxRelOf(ifi.Cond, pol)
+				if !okR {
+					continue
+				}
+				l, r, op := rel.L, rel.R, rel.Op
+				if op == token.LSS {
+					l, r, op = r, l, token.GTR
+				}
+				if op == token.GTR && hxIsField(l, sizeF) && hxIsField(r, maxF) {
+					exitOK = hxReach(ifi.Block().Succs[i])[ifi.Block()] && !hxReach(ifi.Block().Succs[1-i])[ifi.Block()]
+				}
 			}
 		}
 		c.Check("dyn-table", "dynamicTable.evict:until-fits", fn.Pos(), ok && exitOK, "evict must remove the oldest entries (size -= entry size) while size > maxSize and stop only when size <= maxSize")
@@ -1632,6 +1709,11 @@ func c31IntInfo(t types.Type) (bits int64, unsigned, ok bool) {
 func c31Widen(v ssa.Value) ssa.Value {
 	for i := 0; i < 12; i++ {
 		switch x := v.(type) {
+		case *ssa.Parameter:
+			if a, ok := hxParamArg(x); ok { // private helper with a single call site: the argument
+				v = a
+				continue
+			}
 		case *ssa.ChangeType:
 			v = x.X
 			continue
@@ -1763,7 +1845,7 @@ func c31Narrowing(c *core.Ctx) {
 			}
 			bounded := false
 			var rels []hxRel
-			for _, g := range core.GuardsAt(cv.Block()) {
+			for _, g := range hxGuardsAt(cv.Block()) {
 				r, ok := hxRelOf(g.Cond, g.Pol)
 				if !ok {
 					continue
